@@ -129,6 +129,13 @@ def discard(reason="discarded"):
         _CURRENT.classes["discard:" + reason] = _CURRENT.classes.get("discard:" + reason, 0) + 1
 
 
+def trivial():
+    """called from inside a prop(): the case was executed and judged, but does not satisfy the property's
+    non-triviality rule (which can only be evaluated on the result)"""
+    if _CURRENT is not None:
+        _CURRENT._discarded = True
+
+
 class Stats:
     def __init__(self):
         self.evaluations = 0
